@@ -16,6 +16,7 @@ translations are `Surface.translate`.  Expression trees follow the C++ (associat
 `dot_product`).  `sincos(Turn)` (sincospi) values are oracle inputs.  No Mathlib import.
 -/
 import CelerVerif.Model.Surf
+import CelerVerif.Model.SurfXform
 
 namespace CelerVerif.Solids
 open CelerVerif CelerVerif.Surf
@@ -72,12 +73,14 @@ def softZero (abs v : α) : Bool := Num.lt (Num.abs v) abs
 
 /-! ### bounding boxes with explicit infinities -/
 
-/-- bbox coordinate: −∞, a finite value, +∞ -/
+/-- bbox coordinate: −∞, a finite value, +∞, or NaN (∞ − ∞ when an unbounded box is rotated) -/
 inductive Ext (α : Type) where
-  | ninf | fin (a : α) | pinf
+  | ninf | fin (a : α) | pinf | nan
 deriving Repr, Inhabited
 
 def Ext.lt : Ext α → Ext α → Bool
+  | .nan, _ => false
+  | _, .nan => false
   | .ninf, .ninf => false
   | .ninf, _ => true
   | .fin _, .ninf => false
@@ -86,6 +89,8 @@ def Ext.lt : Ext α → Ext α → Bool
   | .pinf, _ => false
 
 def Ext.le : Ext α → Ext α → Bool
+  | .nan, _ => false
+  | _, .nan => false
   | .ninf, _ => true
   | .fin _, .ninf => false
   | .fin a, .fin b => Num.le a b
@@ -93,13 +98,36 @@ def Ext.le : Ext α → Ext α → Bool
   | .pinf, .pinf => true
   | .pinf, _ => false
 
+/-- `celeritas::max(a, b)` = (a < b) ? b : a;  `celeritas::min(a, b)` = (b < a) ? b : a -/
 def Ext.max (a b : Ext α) : Ext α := if Ext.lt a b then b else a
 def Ext.min (a b : Ext α) : Ext α := if Ext.lt b a then b else a
+/-- `std::fmax(p, position)` / `std::fmin` with a non-NaN second argument (a NaN first
+    argument is replaced) -/
+def Ext.fmax (a b : Ext α) : Ext α := match a with | .nan => b | _ => Ext.max a b
+def Ext.fmin (a b : Ext α) : Ext α := match a with | .nan => b | _ => Ext.min a b
 /-- translate a coordinate -/
 def Ext.add (e : Ext α) (t : α) : Ext α :=
   match e with
   | .fin a => .fin (a + t)
   | e => e
+/-- `r * x` for a nonzero finite r -/
+def Ext.scale (r : α) (e : Ext α) : Ext α :=
+  match e with
+  | .fin a => .fin (r * a)
+  | .pinf => if Num.lt r (0 : α) then .ninf else .pinf
+  | .ninf => if Num.lt r (0 : α) then .pinf else .ninf
+  | .nan => .nan
+/-- IEEE sum with infinities: ∞ + (−∞) = NaN -/
+def Ext.plus (a b : Ext α) : Ext α :=
+  match a, b with
+  | .nan, _ => .nan
+  | _, .nan => .nan
+  | .fin x, .fin y => .fin (x + y)
+  | .pinf, .ninf => .nan
+  | .ninf, .pinf => .nan
+  | .pinf, _ => .pinf
+  | .ninf, _ => .ninf
+  | .fin _, e => e
 
 /-- `BoundingBox<>` -/
 structure BBox (α : Type) where
@@ -121,10 +149,10 @@ def BBox.nonNull (b : BBox α) : Bool :=
 
 /-- `shrink(Bound::lo, ax, pos)` -/
 def BBox.shrinkLo (b : BBox α) (ax : Axis) (pos : α) : BBox α :=
-  { b with lo := b.lo.set ax.toNat (Ext.max (b.lo.get ax.toNat) (.fin pos)) }
+  { b with lo := b.lo.set ax.toNat (Ext.fmax (b.lo.get ax.toNat) (.fin pos)) }
 /-- `shrink(Bound::hi, ax, pos)` -/
 def BBox.shrinkHi (b : BBox α) (ax : Axis) (pos : α) : BBox α :=
-  { b with hi := b.hi.set ax.toNat (Ext.min (b.hi.get ax.toNat) (.fin pos)) }
+  { b with hi := b.hi.set ax.toNat (Ext.fmin (b.hi.get ax.toNat) (.fin pos)) }
 
 /-- bbox `calc_intersection` -/
 def BBox.inter (a b : BBox α) : BBox α :=
@@ -135,12 +163,35 @@ def BBox.union (a b : BBox α) : BBox α :=
   ⟨⟨Ext.min a.lo.x b.lo.x, Ext.min a.lo.y b.lo.y, Ext.min a.lo.z b.lo.z⟩,
    ⟨Ext.max a.hi.x b.hi.x, Ext.max a.hi.y b.hi.y, Ext.max a.hi.z b.hi.z⟩⟩
 
-/-- `calc_transform(Translation, bbox)` / identity for `NoTransformation` -/
-def BBox.translate (tra : Option (Vec3 α)) (b : BBox α) : BBox α :=
+/-- the zero-skipping rotation of a corner in `calc_transform(Transformation, bbox)` -/
+def rotateCorner (r : Mat3 α) (x : Vec3 (Ext α)) : Vec3 (Ext α) :=
+  let row (v : Vec3 α) : Ext α :=
+    let step (acc : Ext α) (c : α) (e : Ext α) : Ext α :=
+      if Num.ne c (0 : α) then Ext.plus acc (Ext.scale c e) else acc
+    step (step (step (.fin (0 : α)) v.x x.x) v.y x.y) v.z x.z
+  ⟨row r.r0, row r.r1, row r.r2⟩
+
+/-- `calc_transform(Transformation, bbox)`: box around the 8 rotated corners, then translated -/
+def BBox.rotate (t : Transformation α) (b : BBox α) : BBox α :=
+  let corner (hx hy hz : Bool) : Vec3 (Ext α) :=
+    rotateCorner t.rot ⟨if hx then b.hi.x else b.lo.x, if hy then b.hi.y else b.lo.y,
+                        if hz then b.hi.z else b.lo.z⟩
+  let step (acc : BBox α) (p : Vec3 (Ext α)) : BBox α :=
+    ⟨⟨Ext.min acc.lo.x p.x, Ext.min acc.lo.y p.y, Ext.min acc.lo.z p.z⟩,
+     ⟨Ext.max acc.hi.x p.x, Ext.max acc.hi.y p.y, Ext.max acc.hi.z p.z⟩⟩
+  let acc := [corner false false false, corner false false true, corner false true false,
+              corner false true true, corner true false false, corner true false true,
+              corner true true false, corner true true true].foldl step BBox.null
+  ⟨⟨acc.lo.x.add t.tra.x, acc.lo.y.add t.tra.y, acc.lo.z.add t.tra.z⟩,
+   ⟨acc.hi.x.add t.tra.x, acc.hi.y.add t.tra.y, acc.hi.z.add t.tra.z⟩⟩
+
+/-- `apply_transform(transform, bbox)` -/
+def BBox.translate (tra : Xform α) (b : BBox α) : BBox α :=
   match tra with
-  | none => b
-  | some t => ⟨⟨b.lo.x.add t.x, b.lo.y.add t.y, b.lo.z.add t.z⟩,
+  | .none => b
+  | .tra t => ⟨⟨b.lo.x.add t.x, b.lo.y.add t.y, b.lo.z.add t.z⟩,
                ⟨b.hi.x.add t.x, b.hi.y.add t.y, b.hi.z.add t.z⟩⟩
+  | .full t => b.rotate t
 
 /-- `is_inside(bbox, point)` -/
 def BBox.contains (b : BBox α) (p : Vec3 α) : Bool :=
@@ -504,14 +555,11 @@ deriving Inhabited
 
 def BState.init : BState α := ⟨⟨[], []⟩, [], Zone.infinite, Zone.infinite, false⟩
 
-/-- `apply_transform(transform, surface)` for `NoTransformation` / `Translation` -/
-def applyTransform (tra : Option (Vec3 α)) (s : Surface α) : Surface α :=
-  match tra with
-  | none => s
-  | some t => s.translate t
+/-- `apply_transform(transform, surface)` -/
+def applyTransform (tra : Xform α) (s : Surface α) : Surface α := tra.applySurf s
 
 /-- `IntersectSurfaceBuilder::operator()(sense, surf)` -/
-def BState.insertSurface (st : BState α) (tol : Tol α) (tra : Option (Vec3 α)) (sense : Sense)
+def BState.insertSurface (st : BState α) (tol : Tol α) (tra : Xform α) (sense : Sense)
     (s : Surface α) : BState α :=
   if st.diverged then st else
   match simplify tol.rel simplifyFuel sense s with
@@ -527,7 +575,7 @@ def BState.insertSurface (st : BState α) (tol : Tol α) (tra : Option (Vec3 α)
       { st with store := store, nodes := st.nodes ++ [(fs, id)], loc := loc, glob := glob }
 
 /-- `shrink_exterior(bbox)` (sense inside) -/
-def BState.shrinkExterior (st : BState α) (tra : Option (Vec3 α)) (b : BBox α) : BState α :=
+def BState.shrinkExterior (st : BState α) (tra : Xform α) (b : BBox α) : BState α :=
   let le := st.loc.exterior.inter b
   let li := if st.loc.interior.nonNull then st.loc.interior.inter le else st.loc.interior
   let ge := st.glob.exterior.inter (b.translate tra)
@@ -535,12 +583,12 @@ def BState.shrinkExterior (st : BState α) (tra : Option (Vec3 α)) (b : BBox α
   { st with loc := ⟨li, le⟩, glob := ⟨gi, ge⟩ }
 
 /-- `grow_interior(bbox)` (sense outside) -/
-def BState.growInterior (st : BState α) (tra : Option (Vec3 α)) (b : BBox α) : BState α :=
+def BState.growInterior (st : BState α) (tra : Xform α) (b : BBox α) : BState α :=
   { st with loc := ⟨st.loc.interior.union b, st.loc.exterior⟩,
             glob := ⟨st.glob.interior.union (b.translate tra), st.glob.exterior⟩ }
 
 /-- `calc_merged_bzone(state)` -/
-def BState.merged (st : BState α) (tra : Option (Vec3 α)) : Zone α :=
+def BState.merged (st : BState α) (tra : Xform α) : Zone α :=
   let ti := if st.loc.interior.nonNull then st.loc.interior.translate tra else BBox.null
   let te := st.loc.exterior.translate tra
   ⟨ti.inter st.glob.interior, te.inter st.glob.exterior⟩
@@ -551,12 +599,12 @@ inductive Op (α : Type) where
   | bbox (sense : Sense) (b : BBox α)
 deriving Repr, Inhabited
 
-def BState.apply (st : BState α) (tol : Tol α) (tra : Option (Vec3 α)) : Op α → BState α
+def BState.apply (st : BState α) (tol : Tol α) (tra : Xform α) : Op α → BState α
   | .surf sense s => st.insertSurface tol tra sense s
   | .bbox .inside b => st.shrinkExterior tra b
   | .bbox .outside b => st.growInterior tra b
 
-def runOps (tol : Tol α) (tra : Option (Vec3 α)) (ops : List (Op α)) : BState α :=
+def runOps (tol : Tol α) (tra : Xform α) (ops : List (Op α)) : BState α :=
   ops.foldl (fun st op => st.apply tol tra op) BState.init
 
 /-! ### EMISSION: what each `IntersectRegion::build` inserts -/
@@ -753,7 +801,7 @@ def Region.valid : Region α → Bool
   | .wedge .. => true
 
 /-- standalone build of a region against a fresh unit builder -/
-def Region.build (tol : Tol α) (tra : Option (Vec3 α)) (r : Region α) : BState α :=
+def Region.build (tol : Tol α) (tra : Xform α) (r : Region α) : BState α :=
   runOps tol tra (r.ops tol)
 
 /-! ### SPEC: membership predicates (closed solids) -/
@@ -850,7 +898,7 @@ def onSomeSurface (l : List (Sense × Surface α)) (p : Vec3 α) : Bool :=
     `AllObjects`, `AnyObjects`; `make_subtraction a b = all [a, neg b]`) -/
 inductive Obj (α : Type) where
   | shape (r : Region α)
-  | translated (t : Vec3 α) (o : Obj α)
+  | xformed (x : Xform α) (o : Obj α)
   | neg (o : Obj α)
   | all (os : List (Obj α))
   | any (os : List (Obj α))
@@ -874,7 +922,7 @@ mutual
     the original contains p − t -/
 def Obj.mem : Obj α → Vec3 α → Bool
   | .shape r, p => r.mem p
-  | .translated t o, p => o.mem (translateDown t p)
+  | .xformed x o, p => o.mem (x.down p)
   | .neg o, p => !o.mem p
   | .all os, p => Obj.memAll os p
   | .any os, p => Obj.memAny os p
@@ -890,20 +938,19 @@ mutual
 /-- IMPLEMENTATION view: the CSG tree over emitted literals evaluated at a point, with the
     accumulated translation applied to every emitted surface (`Transformed::build` pushes the
     transform; `IntersectSurfaceBuilder` applies it to each surface) -/
-def Obj.eval (tol : Tol α) : Option (Vec3 α) → Obj α → Vec3 α → Bool
+def Obj.eval (tol : Tol α) : Xform α → Obj α → Vec3 α → Bool
   | tra, .shape r, p =>
     evalEmit ((r.emit tol).map fun q => (q.1, applyTransform tra q.2)) p
-  | tra, .translated t o, p =>
-    -- apply_transform(Translation left, Translation right): t' = t_right + t_left
-    let t' := match tra with | none => t | some u => Vec3.add t u
-    Obj.eval tol (some t') o p
+  | tra, .xformed x o, p =>
+    -- `VolumeBuilder::push_transform(apply_transform(local_transform, x))`
+    Obj.eval tol (tra.compose x) o p
   | tra, .neg o, p => !Obj.eval tol tra o p
   | tra, .all os, p => Obj.evalAll tol tra os p
   | tra, .any os, p => Obj.evalAny tol tra os p
-def Obj.evalAll (tol : Tol α) : Option (Vec3 α) → List (Obj α) → Vec3 α → Bool
+def Obj.evalAll (tol : Tol α) : Xform α → List (Obj α) → Vec3 α → Bool
   | _, [], _ => true
   | tra, o :: os, p => Obj.eval tol tra o p && Obj.evalAll tol tra os p
-def Obj.evalAny (tol : Tol α) : Option (Vec3 α) → List (Obj α) → Vec3 α → Bool
+def Obj.evalAny (tol : Tol α) : Xform α → List (Obj α) → Vec3 α → Bool
   | _, [], _ => false
   | tra, o :: os, p => Obj.eval tol tra o p || Obj.evalAny tol tra os p
 end
